@@ -40,7 +40,10 @@ func Arithm(cfg *Config, expr syntax.ArithmExpr) (int, error) {
 	case *syntax.UnaryArithm:
 		switch expr.Op {
 		case syntax.Inc, syntax.Dec:
-			name := expr.X.(*syntax.Word).Lit()
+			name, err := arithmAssignName(expr.X)
+			if err != nil {
+				return 0, err
+			}
 			old := atoi(cfg.envGet(name))
 			val := old
 			if expr.Op == syntax.Inc {
@@ -206,8 +209,23 @@ func atoiLargeBase(s string, base int64) int64 {
 	return n
 }
 
+// arithmAssignName returns the name of the variable that an arithmetic
+// assignment, increment or decrement applies to.
+func arithmAssignName(expr syntax.ArithmExpr) (string, error) {
+	if w, ok := expr.(*syntax.Word); ok {
+		if name := w.Lit(); syntax.ValidName(name) {
+			return name, nil
+		}
+	}
+	// TODO: support array elements as targets, like a[i]=x or a[i]++.
+	return "", fmt.Errorf("unsupported arithmetic assignment target")
+}
+
 func (cfg *Config) assgnArit(b *syntax.BinaryArithm) (int, error) {
-	name := b.X.(*syntax.Word).Lit()
+	name, err := arithmAssignName(b.X)
+	if err != nil {
+		return 0, err
+	}
 	val := atoi(cfg.envGet(name))
 	arg_, err := Arithm(cfg, b.Y)
 	if err != nil {
